@@ -318,6 +318,12 @@ int tr_recv_sim(const void *sock, void *buf, const size_t len, const time_t time
 			return (int)n;
 		}
 		if (p.inq.empty() && p.peer_closed) {
+			// (an operator action can be placed between the transport noticing the hang-up and the library acting on it)
+			if (!p.closed_event_gen_fired || p.closed_event_gen != p.gen) {
+				p.closed_event_gen = p.gen;
+				p.closed_event_gen_fired = true;
+				W.event("recv_closed", p.si);
+			}
 			sim_log(EV_IO, (3u << 8) | (unsigned)p.si, (uint64_t)-4);
 			W.ctx.count("fault_peer_closed_seen");
 			return TR_CLOSED;
@@ -485,6 +491,7 @@ void check_stopped_socket(World &W, int si, const char *when)
 	b.maybe_reset = false;
 	b.has_success = false;
 	W.peers[(size_t)si].c03_pending = false;
+	W.peers[(size_t)si].expect_immediate_open = false; // (the stop came between the trigger and the reconnect)
 	W.peers[(size_t)si].expect_reset_after_open = false;
 	W.peers[(size_t)si].in_sync = false;
 	W.peers[(size_t)si].in_wait = false;
@@ -716,8 +723,10 @@ void status_cb(const struct rtr_mgr_group *group, enum rtr_mgr_status status, co
 	// thread interleave, not on the byte stream
 	if (sim_now_ns() < W->digest_until)
 		digest(W->dig_states, ((uint64_t)(si + 1) << 8) | (uint64_t)(st + 1));
-	if (si >= 0 && st == RTR_SHUTDOWN)
+	if (si >= 0 && st == RTR_SHUTDOWN) {
 		W->peers[(size_t)si].stopping = true;
+		W->peers[(size_t)si].expect_immediate_open = false;
+	}
 	sim_nopreempt_begin();
 	group_oracle_on_status(*W, group, (int)status, si);
 	sim_nopreempt_end();
@@ -1077,9 +1086,9 @@ void sync_exit_locked(World &W, int si, int rc)
 	if (reentered)
 		W.ctx.count("probe_sync_reentered");
 	sim_log(EV_OBS, ((uint64_t)si << 8) | (uint64_t)w.kind, (uint64_t)(rc == RTR_SUCCESS));
-	W.note("sync_exit s%d rc=%d x=%d q=%s walk=%s/%s off=%zu faults=%d reentered=%d from=%zu xbytes=%zu closes=%d state=%d tail=%d plan=%s", si, rc, x.id,
+	W.note("sync_exit s%d rc=%d x=%d q=%s walk=%s/%s off=%zu faults=%d reentered=%d from=%zu xbytes=%zu closes=%d state=%d tail=%d ver=%d rsid=%d plan=%s", si, rc, x.id,
 	       x.qtype == 2 ? "reset" : "serial", WK[w.kind], w.why.c_str(), w.off, x.faults_fired - p.sync_faults_before, x.sync_calls > 1, from, x.bytes.size(),
-	       x.closes, (int)sock.state, x.tail, x.plan.dump().substr(0, 200).c_str());
+	       x.closes, (int)sock.state, x.tail, (int)sock.version, (int)sock.request_session_id, x.plan.dump().substr(0, 200).c_str());
 
 	// C06: the NEW set of a reload is what this response really carried (a response may be well-formed and still not
 	// be the cache's complete state, e.g. with an End of Data in the middle)
@@ -1092,6 +1101,14 @@ void sync_exit_locked(World &W, int si, int rc)
 		// the socket is being stopped (operator or failover) while this synchronisation was running: whatever it
 		// returned, rtr_stop purges the socket's records right after; judged by the stop audit (C07), not here
 		W.ctx.count("probe_sync_ended_by_stop");
+		// C13: the interrupted synchronisation may or may not have acted on a licensed downgrade trigger that was in its
+		// stream (first PDU of the connection in a lower version, Unsupported-Version report, hang-up before a session
+		// exists): either version is accepted at the next query. Without such a trigger nothing is licensed.
+		if (w.downgraded && p.consumed >= from + 8)
+			b.version = w.version_after;
+		else if (b.version > 0 && (w.downgraded || (w.kind == WK_ERR_PDU && w.err_code == 4 && w.err_ver >= 0 && w.err_ver < b.version) ||
+					   (!x.at_query.has_session && (x.closes || w.kind == WK_INCOMPLETE))))
+			p.may_downgrade = true;
 		return;
 	}
 	// one instant for both tables: an enumeration that had to wait for a table lock (held by a preempted socket thread) let
